@@ -246,8 +246,10 @@ def stdmath_obligations(check):
     wd = os.path.join(check.work, 'ast')
     a = astload.Ast()
     a.load(astload.dump(tu, wd, 'stdmath'))
-    for n in STD_MATH:
-        a.load(astload.dump(tu, wd, 'stdmath', filt='std::' + n))
+    # one dump per filter; the filters all have the length of 'PhQ': clang's node ids (heap addresses, ASLR off) are only
+    # identical across invocations whose argument strings have the same allocation sizes
+    for flt in ('abs', 'cbr', 'exp', 'log', 'pow', 'sqr'):
+        a.load(astload.dump(tu, wd, 'stdmath', filt=flt))
     low = lower.Lowerer(a)
     seen = 0
     for o in a.walk():
@@ -283,6 +285,9 @@ def stdmath_obligations(check):
                 want = ('app', nm, (x,))
                 ok = sc.ret == want
             ob.text = 'std::%s(q%s) == %s(q.Value()%s) as a term over the stored number, for all values' % (nm, ', e' if nm == 'pow' else '', nm, ', e' if nm == 'pow' else '')
+            if ok and S.narrow_bad:
+                ok = False
+                sc.ret = 'a %s value narrowed to %s on its way into a %s result' % (S.narrow_bad[0][1], S.narrow_bad[0][0], S.narrow_bad[0][3])
             ob.status = 'discharged' if ok else 'failed'
             if not ok:
                 ob.detail = 'returns %r' % (sc.ret,)
